@@ -3,6 +3,7 @@
 package pmc
 
 import (
+	"time"
 	"bytes"
 	"context"
 	"fmt"
@@ -120,6 +121,9 @@ func (n *LNode) Start() StepObs {
 	return n.Step(Event{Kind: 's', Msg: 0}, nil, ref.Info{}, nil)
 }
 
+// StepWatchdog: how long one real local step may take before it is declared wedged (a step takes micro- to milliseconds).
+var StepWatchdog = 20 * time.Second
+
 type StepObs struct {
 	Outs    []OutRec
 	Commits []CommitRec
@@ -174,13 +178,13 @@ func (n *LNode) Step(e Event, raw *interfaces.ConsensusRawMessage, info ref.Info
 		}
 		n.Sh.OnDeliver(info, shareOK, n.wouldApprove(raw, hash))
 	}
-	func() {
-		defer func() {
-			if r := recover(); r != nil {
-				n.Dead = fmt.Sprint(r)
-				obs.Viol = append(obs.Viol, Violation{Prop: "C12", Clause: "panic", Detail: fmt.Sprintf("node n%d panicked on %c: %v", n.Idx, e.Kind, r)})
-			}
-		}()
+	// the real call runs under a watchdog: a handler that never returns (a lock left held, a wait nobody ends) would
+	// otherwise hang the whole search; it is a wedged node (C12), reported like a panic, and the node is abandoned
+	done := make(chan struct{})
+	var panicked interface{}
+	go func() {
+		defer close(done)
+		defer func() { panicked = recover() }()
 		switch e.Kind {
 		case 'd':
 			n.V.Deliver(raw)
@@ -197,6 +201,17 @@ func (n *LNode) Step(e Event, raw *interfaces.ConsensusRawMessage, info ref.Info
 			}
 		}
 	}()
+	select {
+	case <-done:
+		if panicked != nil {
+			n.Dead = fmt.Sprint(panicked)
+			obs.Viol = append(obs.Viol, Violation{Prop: "C12", Clause: "panic", Detail: fmt.Sprintf("node n%d panicked on %c: %v", n.Idx, e.Kind, panicked)})
+		}
+	case <-time.After(StepWatchdog):
+		n.Dead = "handler did not return"
+		obs.Viol = append(obs.Viol, Violation{Prop: "C12", Clause: "handler-does-not-return", Detail: fmt.Sprintf("node n%d: handling %c %s did not return within %v (single-threaded, no blocking SPI in this harness): the worker is wedged", n.Idx, e.Kind, info.Desc(), StepWatchdog)})
+		return obs
+	}
 	hv := n.V.S.HeightView()
 	height, view := uint64(hv.Height()), uint64(hv.View())
 	if e.Kind == 'd' && n.Dead == "" {
